@@ -23,6 +23,7 @@ ASSUMPTIONS = ["certificate checker written from the statement; no tie-break ass
                "empty diagram == one-point diagram (0,0) with index 0 (statement)",
                "row costs compared at 1e-9*scale (bottleneck) / 1e-7*scale (Wasserstein, sklearn cross distances); "
                "sum of rows vs distance at 1e-12*scale*(rows+1)"]
+REQUIRED_NOTES = ["large-cases"]
 TECHNIQUE = "runtime monitoring: certificate-checking monitor on the matching=True return values, replicated across PYTHONHASHSEED configurations"
 
 
@@ -38,7 +39,15 @@ def placeholder(P):
 
 def run_case(ctx, k, rng):
     A, B, scale, small = gen_pair(rng, ctx.tier)
-    ctx.begin(k, "small" if small else "medium", {"dgm1": A, "dgm2": B})
+    cls = "small" if small else "medium"
+    if k % 1999 == 1000:
+        # more than a thousand points in total: matchings of realistic size
+        scale = gen.pick_scale(rng)
+        A = gen.diagram(rng, int(rng.integers(480, 620)), str(rng.choice(["float", "cluster"])), scale)
+        B = gen.diagram(rng, int(rng.integers(480, 620)), str(rng.choice(["float", "cluster", "diagheavy"])), scale)
+        cls = "large"
+        ctx.note("large-cases")
+    ctx.begin(k, cls, {"dgm1": A, "dgm2": B})
     S, T = placeholder(OM.finite_rows(A)), placeholder(OM.finite_rows(B))
     sc = scale_of(A, B)
     digests = []
